@@ -153,6 +153,13 @@ fn scenarios() -> Vec<Scn> {
     // the pretty printer is quadratic in the number of statements: bounded by time
     add("serialize:turtle-pretty", true, 10_000);
     add("serialize:trig-pretty", true, 10_000);
+    // one subject (in one graph) carrying N statements: stresses everything that walks the
+    // statements of a single subject / skips repeats of the same (graph, subject) pair
+    add("onesubject:turtle-pretty", true, 600_000);
+    add("onesubject:trig-pretty", true, 600_000);
+    add("onesubject:turtle", false, u64::MAX);
+    add("onesubject:jsonld", false, u64::MAX);
+    add("onesubject:rdfxml", false, u64::MAX);
     // mutation
     add("mutate:fd-remove-matching", true, u64::MAX);
     add("mutate:ld-retain-matching", true, u64::MAX);
@@ -481,6 +488,20 @@ fn scenario(name: &str, n: u64) -> Result<String, String> {
         "serialize" => {
             let quads = matches!(what, "nq" | "trig" | "trig-pretty" | "jsonld");
             serialize(what, &statements(n, quads))
+        }
+        "onesubject" => {
+            let quads = matches!(what, "trig-pretty" | "jsonld");
+            let qs: Vec<MQ> = (0..n)
+                .map(|i| {
+                    MQ::new(
+                        iri("http://x/s".into()),
+                        iri(format!("http://x/p{}", i % 3)),
+                        if i % 2 == 0 { iri(format!("http://x/o{i}")) } else { MT::string(format!("value {i}")) },
+                        if quads { Some(iri("http://x/g".into())) } else { None },
+                    )
+                })
+                .collect();
+            serialize(what, &qs)
         }
         "mutate" => match what {
             "fd-remove-matching" => {
